@@ -486,6 +486,10 @@ impl QueryEngine {
                 }
             }
             Expr::Between(between) => {
+                // NOT BETWEEN accepts the timestamps outside [low, high]: it gives no bound
+                if between.negated {
+                    return;
+                }
                 if let Expr::Column(col) = between.expr.as_ref() {
                     if col.name == "timestamp" || col.name == "time" {
                         if let Some(low) = Self::extract_timestamp_value(&between.low) {
